@@ -418,6 +418,10 @@ pub fn tree(r: &mut Rng, serial: &mut usize) -> Tree {
                 let mandatory = MANDATORY.contains(&i);
                 files[i] = Some(if !mandatory && r.chance(1, 8) {
                     String::new()
+                } else if mandatory && r.chance(1, 6) {
+                    // a mandatory file only has to exist: zero-length and
+                    // blank-only files still make the directory a package
+                    ["", "\n", "  \n", "\t"][r.below(4)].to_string()
                 } else if f.starts_with("+SIZE") && r.chance(1, 2) {
                     format!("{}\n", r.below(1_000_000))
                 } else {
